@@ -1347,6 +1347,10 @@ func main() {
 			decisionFunc("transport/standard.go", "Standard.openBase"))
 		fmt.Fprintf(&sw, "(* driver/network/acquirepriv.go Driver.processAcquirePriv *)\nDefinition process_acquire_priv_code : list dstmt :=\n  %s.\n",
 			decisionFunc("driver/network/acquirepriv.go", "Driver.processAcquirePriv"))
+		fmt.Fprintf(&sw, "(* util/strings.go StringContainsAnySubStrs *)\nDefinition string_contains_any_code : list dstmt :=\n  %s.\n",
+			decisionFunc("util/strings.go", "StringContainsAnySubStrs"))
+		fmt.Fprintf(&sw, "(* response/response.go Response.Record *)\nDefinition response_record_code : list dstmt :=\n  %s.\n",
+			decisionFunc("response/response.go", "Response.Record"))
 		sp := filepath.Join(filepath.Dir(*out), "GeneratedSkel.v")
 		olds, _ := os.ReadFile(sp)
 		if !bytes.Equal(olds, sw.Bytes()) {
